@@ -173,7 +173,7 @@ for sz in ['z0', 'e8', 'e3', 'e16', 'e160']:
     add('k2_misc', 'vecdrop_' + sz, 'vecdrop_h::<%s>(%s)' % (TY[sz], d), props=['C03', 'C05', 'C06'], tier=tier_for(sz, {'e8', 'e16'}), cost=40 if sz in SLOW else 6)
 add('k2_misc', 'clear_typed_e8', 'clear_h::<E8>(false, true)', props=['C01'], tier='q', cost=5)
 for sz in ['e8', 'e3', 'z0', 'e16', 'e24']:
-    add('k2_misc', 'clone_' + sz, 'clone_h::<%s>(false, true)' % TY[sz], props=['C08', 'C03', 'C05', 'C06'], tier=tier_for(sz, {'e8', 'z0'}), cost=60 if sz in SLOW else 10)
+    add('k2_misc', 'clone_' + sz, 'clone_h::<%s>(false, true)' % TY[sz], props=['C08', 'C03', 'C05', 'C06', 'C10'], tier=tier_for(sz, {'e8', 'z0'}), cost=60 if sz in SLOW else 10)
 add('k2_misc', 'clone_fixed_e8', 'clone_h::<E8>(true, true)', props=['C08', 'C11', 'C19'], tier='q', cost=10)
 add('k2_misc', 'clone_fixed_e12', 'clone_h::<E12>(true, true)', props=['C08', 'C11'], tier='t', cost=60)
 add('k2_misc', 'clone_nodrop_e8', 'clone_h::<E8>(false, false)', props=['C08', 'C03'], tier='q', cost=10)
@@ -383,6 +383,11 @@ add('k1_loops', 'k3_insert_u8', 'k3_insert_h::<u8, 6, 6>()', props=['C01', 'C05'
 add('k1_loops', 'k3_insert', 'k3_insert_h::<u32, 16, 4>()', props=['C01', 'C05'], tier='q', kind='bounded', bound=B3, attrs=['#[kani::unwind(20)]'], flags=['nolc'], cost=60, macro='p')
 add('k1_loops', 'k3_remove', 'k3_remove_h()', props=['C01', 'C05'], tier='t', kind='bounded', bound=B3, attrs=['#[kani::unwind(20)]'], flags=['nolc'], cost=60, macro='p')
 
+
+# C10 "len <= capacity always": every operation contract asserts len' <= capacity'; one representative per growing operation serves C10
+for h in HS:
+    if h.name in ('insert_raw_e8', 'splice_erased_e8_k2', 'insert_from_remove_e8', 'insert_lazy_clone_e8', 'clone_nodrop_e8', 'clone_fixed_e8'):
+        h.props.add('C10')
 
 # ---------------------------------------------------------------------------------------------------
 # C19: the same contracts on the --no-default-features build (no `alloc`, no Heap)
